@@ -37,6 +37,11 @@
 
 #define	P_INI_FILE_MAX_LINE	1024
 
+#if defined (PLIBSYS_VERIF) && defined (PLIBSYS_VERIF_INI_MAX_LINE)
+#  undef P_INI_FILE_MAX_LINE
+#  define P_INI_FILE_MAX_LINE PLIBSYS_VERIF_INI_MAX_LINE
+#endif
+
 typedef struct PIniParameter_ {
 	pchar		*name;
 	pchar		*value;
